@@ -9,8 +9,10 @@ d=seeded/$name
 mut=/tmp/mut_$name
 rm -rf "$mut"; mkdir -p "$mut"; cp -r /repo/bqskit "$mut/bqskit"
 ( cd "$mut" && patch -p1 -s < "/verif/$d/patch.diff" ) || { echo "PATCH-FAILED"; exit 2; }
-echo "== demo on original:"; ( cd /tmp && PYTHONPATH=/repo timeout 900 /venv/bin/python "/verif/$d/demo.py" >/tmp/demo_orig_$name.log 2>&1; echo "exit=$?" )
-echo "== demo with change:"; ( cd /tmp && PYTHONPATH=$mut timeout 900 /venv/bin/python "/verif/$d/demo.py" >/tmp/demo_mut_$name.log 2>&1; echo "exit=$?"; tail -3 /tmp/demo_mut_$name.log | cut -c1-200 )
+# demos may start a real runtime on fixed localhost ports: run them in a private network namespace
+NS="unshare -n -p -f --mount-proc sh -c"
+echo "== demo on original:"; ( cd /tmp && $NS "ip link set lo up && PYTHONPATH=/repo timeout 900 /venv/bin/python /verif/$d/demo.py" >/tmp/demo_orig_$name.log 2>&1; echo "exit=$?" )
+echo "== demo with change:"; ( cd /tmp && $NS "ip link set lo up && PYTHONPATH=$mut timeout 900 /venv/bin/python /verif/$d/demo.py" >/tmp/demo_mut_$name.log 2>&1; echo "exit=$?"; tail -3 /tmp/demo_mut_$name.log | cut -c1-200 )
 echo "== check $prop $* with change:"
 PYTHONPATH=$mut ./check "$prop" --no-evidence "$@" 2>&1 | grep -E "VIOLATION|KNOWN-FINDING|HARNESS-ERROR|tier=|refuted" | cut -c1-220 | head -20
 echo "check-exit=${PIPESTATUS[0]}"
